@@ -99,17 +99,12 @@ impl<C: Config, Q: Query> Snapshot<C, Q> {
         caller_information: &CallerInformation,
         lock_guard: ComputingLockGuard<C>,
     ) -> Option<(ComputingLockGuard<C>, Self)> {
-        // if the caller is backward projection propagation, we always
-        // recompute since the projection query have already told us
-        // that the value is required to be recomputed.
-        if matches!(
-            caller_information.kind(),
-            CallerKind::BackwardProjectionPropagation
-        ) {
-            return Some((lock_guard, self));
-        }
-
-        // continue normal path ...
+        // if the caller is backward projection propagation, a firewall or
+        // projection below has changed relative to its own previous value.
+        // That does not mean it differs from what this query saw (it may
+        // have changed and changed back while this query was not looked at),
+        // so the query is not recomputed outright: every dependency is
+        // checked, dirty or not (see `CallerInformation::pedantic_repair`).
         let recompute = self
             .recompute_decision_based_on_forward_edges(
                 caller_information,
@@ -489,9 +484,7 @@ impl<C: Config, Q: Query> Snapshot<C, Q> {
                         caller_information.timestamp(),
                         caller_information.active_computation_guard(),
                         computing_lock_guard.query_computing(),
-                        caller_information.get_query_caller().is_some_and(
-                            super::caller::QueryCaller::pedantic_repair,
-                        ),
+                        caller_information.pedantic_repair(),
                     )
                     .await;
 
@@ -545,9 +538,7 @@ impl<C: Config, Q: Query> Snapshot<C, Q> {
                         let computing_lock_guard =
                             computing_lock_guard.query_computing().clone();
                         let pedantic_repair =
-                            caller_information.get_query_caller().is_some_and(
-                                super::caller::QueryCaller::pedantic_repair,
-                            );
+                            caller_information.pedantic_repair();
 
                         chunk_handles.spawn(async move {
                             Self::check_callee_chunked(
